@@ -3,19 +3,32 @@ import AvoVerif.Model.Func
 namespace Avo.Drv.C09
 open Avo.Drv Avo.Func
 
-/-- Parse `n (L hex | C | I br cond term (-|=hex))*`. -/
-def parseNode : List String → Option (Node × List String)
+/-- What x86 control flow says about an opcode, independently of avo's table:
+`JMP` is an unconditional jump, every other `J…` opcode a conditional branch,
+`RET` the (near) return. -/
+def specFlags (opcode : String) : Bool × Bool × Bool :=
+  let isJ := opcode.startsWith "J"
+  (isJ, isJ && opcode != "JMP", opcode == "RET")
+
+/-- Parse `n (L hex | C | I br cond term (-|=hex) opcode)*`; with `spec` the
+branch flags are recomputed from the opcode instead of taken from the request. -/
+def parseNode (spec : Bool) : List String → Option (Node × List String)
   | "L" :: h :: ts => do let s ← unhexStr h; some (.label s, ts)
   | "C" :: ts => some (.comment, ts)
-  | "I" :: b :: c :: t :: l :: ts =>
+  | "I" :: b :: c :: t :: l :: opc :: ts =>
     let lbl : Option (Option String) :=
       if l == "-" then some none
       else if l.startsWith "=" then (unhexStr (l.drop 1).toString).map some
       else none
-    lbl.map (fun lo => (.instr ⟨b == "1", c == "1", t == "1", lo⟩, ts))
+    lbl.map (fun lo =>
+      if spec then
+        let f := specFlags opc
+        (.instr ⟨f.1, f.2.1, f.2.2, lo⟩, ts)
+      else (.instr ⟨b == "1", c == "1", t == "1", lo⟩, ts))
   | _ => none
 
-def parseNodes (ts : List String) : Option (List Node × List String) := listOf parseNode ts
+def parseNodes (ts : List String) (spec : Bool := false) : Option (List Node × List String) :=
+  listOf (parseNode spec) ts
 
 def sortDedup (xs : List Int) : List Int :=
   let a := xs.toArray.qsort (· < ·)
@@ -43,7 +56,8 @@ def handle : Handler
     let (nodes, _) ← parseNodes rest
     some (render nodes)
   | "accept-cfg" :: rest => do
-    let (nodes, rest) ← parseNodes rest
+    -- judged with the control-flow class of each opcode as x86 defines it
+    let (nodes, rest) ← parseNodes rest (spec := true)
     match rest with
     | "=>" :: impl =>
       let m := render nodes
